@@ -210,15 +210,33 @@ def Run(tier):
   # comment markers, quotes of the other kind, escapes)
   tricky = {'dq': "a;b,(c /* # ' :- ", 'sq': 'a\\\'b\\\\c\\;d(" #',
             'tq': 'a"b\'c; ) /* \\'}
+  # ... and characters of 2, 3 and 4 UTF-8 bytes (the C++ parser counts
+  # bytes, the Python parser code points; heritage texts after such a
+  # literal must still agree)
+  uni = {'dq': 'a\u00e9\u20ac\U0001d11ez', 'sq': '\U0001d11e\u00e9;\u20ac',
+         'tq': '\u20ac\U0001d11e\U0001d11e)'}
+  n_uni_followed = 0
   for c, t in zip(cases, tcs):
     slots = sg.StringSlots(c['toks'])
     if slots:
       fill = {k: tricky[form] for k, (_, form) in enumerate(slots)}
       ft = sg.TlcCase(c, t['id'], str_fill=fill)
       jobs.append(('literal', t['id'], sg.Render(ft), {'fill': fill}))
+      fill = {k: uni[form] for k, (_, form) in enumerate(slots)}
+      ft = sg.TlcCase(c, t['id'], str_fill=fill)
+      free = [b for b in range(len(ft['toks']) + 1) if not ft['glue'][b]]
+      jobs.append(('unicode', t['id'], sg.Render(ft), {'fill': fill}))
+      jobs.append(('unicode', t['id'], sg.Render(
+          ft, {'sites': [{'b': b, 'k': 'sp', 'pos': 'L'} for b in free]}),
+                   {'fill': fill, 'layout': 'all-spaces'}))
+      if any(sum(1 for x in c['toks'][ti + 1:]
+                 if x['k'] in ('var', 'num', 'pred', 'field')) >= 2
+             for ti, _ in slots):
+        n_uni_followed += 1
   seen = set()
   for p in places:
-    lay = {'sites': p['sites'], 'wraps': p['wraps'], 'semi': p['semi']}
+    lay = {'sites': p['sites'], 'wraps': p['wraps'],
+           'nests': p.get('nests', []), 'semi': p['semi']}
     key = (p['id'], json.dumps(lay, sort_keys=True))
     if key in seen:
       continue
@@ -341,7 +359,10 @@ def Run(tier):
       'known_findings_reproduced': {k: len(v) for k, v in cls.hit.items()},
       'known_findings_not_reproduced': cls.NotReproduced(),
       'stats': stats,
+      'unicode_literals_followed_by_tokens': n_uni_followed,
   }
+  if n_uni_followed == 0:
+    missing.append('unicode literal followed by other tokens')
   if missing or missing_ops or accepted_canon == 0 or rejected_corrupt == 0:
     print('VACUITY: productions %s corruption operators %s accepted %d '
           'rejected-corruptions %d' % (missing, missing_ops, accepted_canon,
